@@ -628,6 +628,41 @@ pub fn mtoom(args: &Args) {
             }
         }
     }
+    // variable functions need the terminals 1 and 0: the store runs full between the two
+    // (cap 1..3, with or without the constant 1 present, 0 or 1 slot left)
+    for cap in 1..=3usize {
+        for have_one in [false, true] {
+            for free in 0..2usize {
+                let fill = cap.saturating_sub(free);
+                if fill == 0 || (have_one && fill < 1) {
+                    continue;
+                }
+                let mref = oxidd::mtbdd::new_manager(1 << 10, cap, 16, 1);
+                let mut s: MvSession<MT> = MvSession::with_manager(&mut out, mref, 16, 1, "oom");
+                let mut k = 0;
+                if have_one {
+                    mt_const(&mut s, I64::Num(1));
+                    k += 1;
+                }
+                let mut c = 40;
+                while k < fill {
+                    mt_const(&mut s, I64::Num(c));
+                    c += 1;
+                    k += 1;
+                }
+                cases += 1;
+                if mt_var(&mut s, 0).is_none() {
+                    failures += 1;
+                }
+                if s.dead {
+                    continue;
+                }
+                s.gc();
+                s.obs();
+                s.finish();
+            }
+        }
+    }
     out.finish();
     write_summary(&dir, "mv-mtoom", &out, json!({"rows":cases,"nontrivial":failures}));
 }
